@@ -80,7 +80,8 @@ def build_case(kind, stmts, pos, lead, role, tag, rng_tag):
         if isinstance(v, str):
             texts[k2] = v
     exp = [(pfile, p.offset, p.end)] + [(pfile, a, b) for a, b in p.others]
-    return {"files": files, "fs": fs, "texts": texts, "pfile": pfile, "planted": p, "expected": exp}
+    return {"files": files, "fs": fs, "texts": texts, "pfile": pfile, "planted": p, "expected": exp,
+            "also": [(i, pfile, a, b) for i, a, b in p.also]}
 
 
 def nlist_text(t):
@@ -166,12 +167,13 @@ def build_tree(variant, kind, kind2, stmts, pos, lead, tag, rng_tag):
     else:   # both: the first file's fault leads, the second file's must be reported too
         fs[d1 + "/defs.mac"], fs[d2 + "/defs.mac"] = p1.source, p2.source
         P, pfile = p1, d1 + "/defs.mac"
-        also = [(p2.ident, d2 + "/defs.mac", p2.offset, p2.end)]
+        also = [(p2.ident, d2 + "/defs.mac", p2.offset, p2.end)] + [(i, d2 + "/defs.mac", a, b) for i, a, b in p2.also]
         fs.update({os.path.join(d1, k2): v for k2, v in p1.fs.items()})
     fs.update({os.path.join(os.path.dirname(pfile) if variant != "both" else d2, k2): v for k2, v in p2.fs.items()})
     texts = dict(files)
     texts.update({k2: v for k2, v in fs.items() if isinstance(v, str)})
     exp = [(pfile, P.offset, P.end)] + [(pfile, a, b) for a, b in P.others]
+    also = also + [(i, pfile, a, b) for i, a, b in P.also]
     return {"files": files, "fs": fs, "texts": texts, "pfile": pfile, "planted": P, "expected": exp, "also": also}
 
 
